@@ -1,4 +1,5 @@
 #!/bin/bash
+# (the file column may list several files separated by commas: the same expression is applied to each)
 # selftest/run_neutral.sh [worktree] : applies every behaviour-preserving edit of selftest/neutral.tsv to a scratch worktree of /repo
 # (default: creates /tmp/neutral_wt from HEAD and removes it afterwards) and runs the listed checks there; every check must exit 0.
 cd /verif
@@ -7,7 +8,7 @@ if [ -z "$WT" ]; then WT=/tmp/neutral_wt; own=1; git -C /repo worktree remove --
 fa=0; lost=0; ok=0
 while IFS=$'\t' read -r props file expr what; do
   [[ "$props" =~ ^#.*$ || -z "$props" ]] && continue
-  (cd $WT && git checkout -q -- . && sed -i "$expr" "$file")
+  (cd $WT && git checkout -q -- . && for f in ${file//,/ }; do sed -i "$expr" "$f"; done)
   if [ -z "$(git -C $WT diff --stat)" ]; then echo "NO-CHANGE: $what [$expr]"; lost=$((lost+1)); continue; fi
   for p in $props; do
     out=$(TSG_REPO=$WT ./check $p 2>&1); rc=$?
